@@ -257,7 +257,7 @@ pub fn suite<C: Bd, G: Gen>(g: &mut G) {
     }
     let mut j = 0;
     while j < C::M {
-        ob!("B4.other_fields_untouched", k.other(j) == c.other(j));
+        obq!("B4.other_fields_untouched", k.other(j) == c.other(j));
         j += 1;
     }
     ob!("B6.is_within_bounds_matches_accessors", c.is_within_bounds() == all_in);
@@ -276,7 +276,7 @@ pub fn suite<C: Bd, G: Gen>(g: &mut G) {
     let mut i = 0;
     while i < C::N { ob!("B5.assign_equals_by_value", a.comp(i) == k.comp(i)); i += 1; }
     let mut j = 0;
-    while j < C::M { ob!("B5.assign_other_fields_untouched", a.other(j) == c.other(j)); j += 1; }
+    while j < C::M { obq!("B5.assign_other_fields_untouched", a.other(j) == c.other(j)); j += 1; }
 }
 
 /// HWB-shaped types: w >= 0, b >= 0, w + b <= 1 (the coupled bound).
@@ -385,7 +385,7 @@ where
     let mut i = 0;
     while i < C::N { ob!("B4.color_part_is_color_clamp", k.color.comp(i) == kc.comp(i)); i += 1; }
     let mut j = 0;
-    while j < C::M { ob!("B4.other_fields_untouched", k.color.other(j) == c.other(j)); j += 1; }
+    while j < C::M { obq!("B4.other_fields_untouched", k.color.other(j) == c.other(j)); j += 1; }
     if c.is_within_bounds() && a >= 0.0 && a <= 1.0 {
         ob!("B2.in_bounds_unchanged", k.alpha == a);
         let mut i = 0;
